@@ -1,13 +1,18 @@
 """C33 — tetrahedron / parallelepiped corner energies are the band energies at the corners.
 
-Exhaustive product: system kinds {System_R (electron / phonon flag), SystemSOC (nspin 1/2, with and
+Exhaustive product: system kinds {System_R (electron / phonon flag; Hermitian-paired H(R), and NOT Hermitian-paired
+H(-R) != H(R)^+ on R-sets closed / not closed under R -> -R), SystemSOC (nspin 1/2, with and
 without a spin-orbit term, spin-down R-vector list equal / permuted / longer / shorter / different
 w.r.t. spin-up), SystemKP} x grids (NKdiv x NKFFT for parallelepipeds, length x NKFFT for GridTetra)
 x every K-point of the grid x cell type x band selection (Emin) on/off.
 
 Oracle (a) independent: plain numpy Fourier sum / the k.p function evaluated in the harness at every
 corner k-point, diagonalised with eigvalsh;  (b) differential: the library's own
-`E_K_corners_*_test` (a fresh Data_K shifted to the corner) when no band selection is active.
+`E_K_corners_*_test` (a fresh Data_K shifted to the corner) when no band selection is active;
+(c) for the systems whose H(R) is not Hermitian-paired (get_system_random without symmetrisation, from_sparse with a
+partial hopping set) the judge is the property's own: E_K of a fresh Data_K object of the same class created by the
+harness at every corner (dK = Kp_fullBZ + corner offset, no band selection) - the library's convention for such
+systems is that H(k) is hermitised, and the harness does not impose a model of its own there.
 """
 import itertools
 
@@ -18,11 +23,16 @@ LEVEL = "exploration"
 RULE = ("cases = (system kind & configuration, cell type, grid, band selection); each case evaluates "
         "E_K_corners_parallel / E_K_corners_tetra on every K-point of the grid (production call: "
         "dK=Kpoint.Kp_fullBZ, E_K first as tetraWeights does) and compares every corner of every FFT point with a "
-        "plain diagonalisation at that corner; non-trivial key = (kind, configuration class, cell, grid) — for "
+        "plain diagonalisation at that corner (for real-space systems whose H(R) is not Hermitian-paired: with E_K of a "
+        "fresh Data_K object of the same class evaluated directly at the corner); non-trivial key = (kind, configuration class, cell, grid) — for "
         "SystemSOC the configuration class is the relation between the spin-down and spin-up R-vector lists")
 ASSUMPTIONS = [
     "systems are the in-memory zoo (num_wann 1-3 per spin (4 in thorough), lattices tric/hex/fcc (+bcc/mono in thorough), R-sets shell1/shell2/lopsided); "
     "SOC data are synthetic (generic smooth in k) passed through the real set_soc_R on a 2x2x2 mesh",
+    "not-Hermitian-paired real-space systems: generic complex Ham_R without pairing on shell1/lopsided(/shell2) (closed under R -> -R) and "
+    "through System_R.from_sparse on two 7-vector lists that are not closed under R -> -R (no partner at all / one pair only); num_wann 1-3 (4 in thorough; "
+    "num_wann=1 cannot distinguish a hermitised from a non-hermitised 1x1 block), one phonon-flag system; the pairing defect max_R|H(-R)-H(R)^+| > 0.1 is "
+    "verified per case; SOC and k.p systems have no such flavour (set_soc_R data are Hermitian at every k by construction)",
     "grids: NKdiv in {1,2} x NKFFT in {1,2,(2,3,1)}; GridTetra with 5 (unsplit) and split tetrahedra; no adaptive refinement history",
     "k.p corner points exactly on the +-1/2 box boundary (where SystemKP's wrap is discontinuous) accept either side",
     "SystemSOC without a spin-orbit term has rvec=None, so its grid is built from the spin-up system",
@@ -48,6 +58,21 @@ SOC_BASE = [(1, "tric"), (2, "tric"), (2, "hex")]
 R_SYSTEMS_T = R_SYSTEMS + [(2, "bcc", "shell2"), (3, "mono", "shell2"), (4, "tric", "shell1")]
 SOC_BASE_T = SOC_BASE + [(3, "tric"), (1, "hex"), (2, "fcc")]
 KP_MODELS = ["mass1", "dirac2", "dirac2_orth"]
+# real-space Hamiltonians that are NOT Hermitian-paired, H(-R) != H(R)^+ (the library hermitises H(k) = sum_R H(R) e^{ikR}
+# wherever it evaluates bands): (nw, lat, R-list, route, phonon flag)
+#   route "raw"    : System_R with a generic complex Ham_R on a zoo R-set closed under R -> -R (what get_system_random makes)
+#   route "sparse" : System_R.from_sparse given only part of the hoppings; R-list not closed under R -> -R
+OPEN_RSETS = {
+    "half_open": [(0, 0, 0), (1, 0, 0), (0, 1, 0), (0, 0, 1), (1, 1, 0), (-1, 0, 1), (2, -1, 0)],    # no R != 0 has its partner
+    "mixed_open": [(0, 0, 0), (1, 0, 0), (-1, 0, 0), (0, 1, 0), (0, 0, -1), (1, -1, 1), (0, 1, 3)],  # one pair, the rest single
+}
+UNPAIRED = [
+    (2, "tric", "shell1", "raw", False), (3, "hex", "lopsided", "raw", False),
+    (2, "tric", "half_open", "sparse", False), (3, "fcc", "mixed_open", "sparse", False),
+    (1, "tric", "half_open", "sparse", False), (2, "hex", "mixed_open", "sparse", True),
+]
+UNPAIRED_T = UNPAIRED + [(4, "tric", "mixed_open", "sparse", False), (2, "bcc", "half_open", "sparse", True),
+                         (3, "mono", "shell2", "raw", True), (2, "fcc", "lopsided", "raw", False)]
 
 PAR_GRIDS = [(1, 1), (1, 2), (2, 1), (2, 2), (1, (2, 3, 1)), (2, (2, 3, 1))]
 # lengths chosen off the exact ties size==dkmax at which GridTetra.split_tetra_size never terminates (e.g. fcc, length=1.0)
@@ -67,6 +92,9 @@ def cases(tier, seed):
                         continue
                     out.append({"kind": "R", "nw": nw, "lat": lat, "rs": rs, "phonon": ph,
                                 "cell": cell, "grid": list(g), "select": sel})
+            for nw, lat, rs, route, ph in (UNPAIRED if tier == "quick" else UNPAIRED_T):
+                out.append({"kind": "R", "nw": nw, "lat": lat, "rs": rs, "phonon": ph, "pairing": route,
+                            "cell": cell, "grid": list(g), "select": sel})
             for rel in SOC_REL:
                 for nw, lat in (SOC_BASE if tier == "quick" else SOC_BASE_T):
                     for with_soc in (False, True):
@@ -109,6 +137,11 @@ def build(case, seed):
     """returns (system, grid_system, reference function k_red -> list of candidate spectra, config-class)"""
     from wbmc import zoo, socsynth as ss
     kind = case["kind"]
+    if kind == "R" and case.get("pairing"):
+        s, defect = build_unpaired(case, seed)
+        # no harness model here: the judge is the system itself evaluated directly at the corner (see run_case)
+        return s, s, None, ("R", "phonon" if case["phonon"] else "electron", "H(-R)!=H(R)^+", case["pairing"],
+                            "R_set_open" if case["rs"] in OPEN_RSETS else "R_set_closed") if defect > 0.1 else None
     if kind == "R":
         s = zoo.make_system(case["nw"], case["lat"], case["rs"], "generic", seed=seed, tag="c33")
         if case["phonon"]:
@@ -154,6 +187,38 @@ def build(case, seed):
     raise KeyError(kind)
 
 
+def build_unpaired(case, seed):
+    """(System_R whose Ham_R is not Hermitian-paired, max_R |H(-R) - H(R)^+|)"""
+    from wbmc import zoo
+    from wannierberri.system.system_R import System_R
+    from wannierberri.fourier.rvectors import Rvectors
+    nw, lat, rs = case["nw"], case["lat"], case["rs"]
+    L = zoo.lattice(lat)
+    iR = OPEN_RSETS[rs] if rs in OPEN_RSETS else zoo.rset(rs)
+    cen = zoo.centres("generic", nw)
+    rng = zoo.rng_for(seed, "c33-unpaired", nw, lat, rs)
+    X = zoo.random_R_matrix(rng, iR, nw, 0, L)          # generic complex, no pairing imposed
+    X[iR.index((0, 0, 0))] += np.diag(1.0 * np.arange(nw))
+    if case["pairing"] == "sparse":
+        ham = {R: {(i, j): X[n, i, j] for i in range(nw) for j in range(nw)} for n, R in enumerate(iR)}
+        s = System_R.from_sparse(real_lattice=L, wannier_centers_red=cen, matrices={"Ham": ham})
+    else:
+        s = System_R(silent=True, name="c33raw")
+        s.set_real_lattice(L)
+        s.num_wann = nw
+        s.wannier_centers_cart = cen @ L
+        s.rvec = Rvectors(lattice=s.real_lattice, iRvec=iR, shifts_left_red=s.wannier_centers_red)
+        s.set_R_mat("Ham", X)
+        s.set_pointgroup()
+        s.check_periodic()
+    if case["phonon"]:
+        s.is_phonon = True
+    H = {tuple(int(x) for x in R): s.get_R_mat("Ham")[n] for n, R in enumerate(s.rvec.iRvec)}
+    zero = np.zeros((nw, nw))
+    defect = max(float(np.abs(H.get(tuple(-x for x in R), zero) - h.conj().T).max()) for R, h in H.items())
+    return s, defect
+
+
 def make_grid(case, gsys):
     from wannierberri.grid import Grid, GridTetra
     g = case["grid"]
@@ -188,6 +253,8 @@ def corner_offsets(case, K):
 def fail_key(case, clsname, method, symptom):
     if case["kind"] == "soc" and case["rel"] not in ("nspin1", "equal"):
         return f"{clsname}.{method}:updown_Rsets_differ:{symptom}"
+    if case.get("pairing"):
+        return f"{clsname}.{method}:H_R_not_hermitian_paired:{symptom}"
     return f"{clsname}.{method}:{symptom}"
 
 
@@ -198,6 +265,8 @@ def run_case(case, seed):
         grid = make_grid(case, gsys)
     except GridTimeout:
         return {"ok": True, "nontrivial": False, "obs": {"skipped": "GridTetra construction did not terminate in 60 s"}}
+    if cfg is None:
+        return {"ok": True, "nontrivial": False, "obs": {"skipped": "the generic Ham_R came out Hermitian-paired"}}
     cls = get_data_k_class_from_system(system)
     method = "E_K_corners_parallel" if case["cell"] == "parallel" else "E_K_corners_tetra"
     Klist = grid.get_K_list(use_symmetry=False)
@@ -233,9 +302,18 @@ def run_case(case, seed):
                     "detail": f"{case} K#{iK}: corners {got.shape}, centre {EK.shape}, selected k {selK.sum()} bands {selB.sum()}"}
         scale = max(1.0, float(np.abs(got).max()) if got.size else 1.0)
         ik_sel = np.where(selK)[0]
+        if ref is None:
+            # the system evaluated directly at the corner k-points: a fresh object of the same class (no band
+            # selection, not attached to the K-point) shifted to the corner; its kpoints_all are kpts + v (mod 1) in the same order
+            direct = {}
+            for idx, v in offs:
+                dc = cls(system, dK=np.array(K.Kp_fullBZ) + v, grid=grid)
+                if np.abs((np.array(dc.kpoints_all) - (kpts + v[None, :]) + 0.5) % 1 - 0.5).max() > 1e-12:   # same point of the BZ
+                    raise RuntimeError("harness: the directly evaluated object is not at the corner k-points")
+                direct[idx] = np.array(dc.E_K)
         for jk, ik in enumerate(ik_sel):
             for idx, v in offs:
-                cands = ref(kpts[ik] + v)
+                cands = ref(kpts[ik] + v) if ref is not None else [direct[idx][ik]]
                 g = got[(jk,) + idx]
                 err = min(float(np.abs(g - c[selB]).max()) if selB.any() else 0.0 for c in cands)
                 worst = max(worst, err)
